@@ -48,8 +48,7 @@ class Bag(object):
         bag.dicts.clear()
         for entity, objects in bag.objects.items():
             for obj in objects:
-                dicts = bag.dicts[entity]
-                if obj not in dicts: bag._process_object(obj)
+                bag._process_object(obj)  # in full, also when it was entered as a related object of another one before
         result = defaultdict(dict)
         for entity, dicts in bag.dicts.items():
             composite_pk = len(entity._pk_columns_) > 1
@@ -73,14 +72,14 @@ class Bag(object):
                     continue
                 if process_related_objects:
                     for related_obj in value:
-                        if related_obj not in bag.dicts:
+                        if related_obj not in bag.dicts[related_obj.__class__]:
                             bag._process_object(related_obj, process_related=False)
                 if len(attr.reverse.entity._pk_columns_) > 1:
                     value = sorted(bag._reduce_composite_pk(item._get_raw_pkval_()) for item in value)
                 else: value = sorted(item._get_raw_pkval_()[0] for item in value)
             elif attr.is_relation:
                 if value is not None:
-                    if process_related_objects:
+                    if process_related_objects and value not in bag.dicts[value.__class__]:
                         bag._process_object(value, process_related=False)
                     value = value._get_raw_pkval_()
                     if len(value) == 1: value = value[0]
